@@ -185,6 +185,17 @@ impl<'a> Cx<'a> {
                 Some((l, _, _)) if self.path_of(l).is_some() => l,
                 _ => t,
             };
+            if self.vm_mode {
+                // a component of the interpreter state (carried by `vm_`), whatever accessors spell it
+                if vm_place(&compact(&toks(t))).is_some() {
+                    continue;
+                }
+                if let Expr::Field(f) = t {
+                    if matches!(&f.member, syn::Member::Named(n) if n == "caller") {
+                        continue;
+                    }
+                }
+            }
             let item = if let Some(p) = self.path_of(t) {
                 (p, true)
             } else if let Expr::Path(p) = t {
@@ -391,6 +402,27 @@ impl<'a> Cx<'a> {
                         return Ok(wrap_pre(&pre, format!("(let vm_ := {};\n  {})", v, body)));
                     }
                     return Ok(wrap_pre(&value.pre, format!("(let vm_ := {{ vm_ with {} := {} }};\n  {})", field, value.term, body)));
+                }
+            }
+            if let Expr::Field(f) = target {
+                if matches!(&f.member, syn::Member::Named(n) if n == "caller") {
+                    // `<some fiber>.borrow_mut().caller = c`
+                    let save = (self.inputs.len(), self.places.clone());
+                    if let Ok(b) = self.expr(&f.base, None) {
+                        if b.ty == LT::FiberId {
+                            if value.ty != LT::Opt(Box::new(LT::FiberId)) {
+                                return self.un("assignment to a fiber's `caller`: the value is not an optional fiber");
+                            }
+                            let mut pre = b.pre;
+                            pre.extend(value.pre);
+                            let v = self.fresh("t");
+                            pre.push(Pre::Bind(v.clone(), format!("(Rs.Vm.setCallerOf vm_ {} {})", b.term, value.term)));
+                            let body = self.block(rest, k)?;
+                            return Ok(wrap_pre(&pre, format!("(let vm_ := {};\n  {})", v, body)));
+                        }
+                    }
+                    self.inputs.truncate(save.0);
+                    self.places = save.1;
                 }
             }
             if let Expr::Index(ix) = target {
@@ -944,6 +976,10 @@ impl<'a> Cx<'a> {
                                 },
                                 _ => None,
                             },
+                        };
+                        let hint = match (&hint, &*a.left) {
+                            (None, Expr::Field(f)) if self.vm_mode && matches!(&f.member, syn::Member::Named(n) if n == "caller") => Some(LT::Opt(Box::new(LT::FiberId))),
+                            _ => hint,
                         };
                         let v = self.expr(&a.right, hint.as_ref())?;
                         self.assign_to(&a.left, v, rest, k)
